@@ -142,6 +142,27 @@ pub(crate) struct ReactCache
 
 impl ReactCache
 {
+    #[cfg(ukoehb_bevy_cobweb_verif)]
+    pub(crate) fn verif_counts(&self) -> crate::verif::TableCounts
+    {
+        let mut c = crate::verif::TableCounts::default();
+        let mut handles: Vec<&ReactorHandle> = Vec::new();
+        for r in self.component_reactors.values()
+        {
+            c.insertion += r.insertion_callbacks.len();
+            c.mutation += r.mutation_callbacks.len();
+            c.removal += r.removal_callbacks.len();
+            handles.extend(r.insertion_callbacks.iter().chain(r.mutation_callbacks.iter()).chain(r.removal_callbacks.iter()));
+        }
+        for v in self.despawn_reactors.values() { c.despawn += v.len(); handles.extend(v.iter()); }
+        for v in self.any_entity_event_reactors.values() { c.any_entity_event += v.len(); handles.extend(v.iter()); }
+        for v in self.resource_reactors.values() { c.resource += v.len(); handles.extend(v.iter()); }
+        for v in self.broadcast_reactors.values() { c.broadcast += v.len(); handles.extend(v.iter()); }
+        c.despawn_keys = self.despawn_reactors.len();
+        c.reactors = handles.iter().map(|h| h.sys_command().0).collect();
+        c
+    }
+
     pub(crate) fn despawn_sender(&self) -> Sender<Entity>
     {
         self.despawn_sender.clone()
